@@ -181,6 +181,7 @@ def check(run):
     binary = vlib.build_impl()
     vlib.regen_facts(binary)
     run.check_proofs('C02', THEOREMS, extra_targets=['theories/Extract/Ex_sync.vo'])
+    run.check_path_translation()      # is_same_or_inside as regenerated from the source text = component-wise prefix, no panic
     jbin = vlib.build_judge('sync')
     rng = run.rng
     quick = run.tier == 'quick'
